@@ -50,7 +50,7 @@ STATIC = ["C03/LIR.v", "C03/VSL.v", "C03/ArithSpec.v", "C03/WordArith.v", "C03/T
           "C03/TieBase.v", "C03/VSubst.v", "C03/TieModels.v", "C03/LegacyExact.v", "C03/VenomExact.v",
           "C03/ConvSpec.v", "C03/ConvModel.v", "C03/ConvExact.v", "C03/VConvExact.v", "C03/ConvTie.v",
           "C03/PowExact.v", "C03/PowTie.v", "C03/UnsafeExact.v", "C03/UnsafeTie.v", "C03/ClampExact.v", "C03/ClampTie.v",
-          "C03/LIRMem.v", "C03/VSLMem.v", "C03/BytesConv.v", "C03/BytesConvTie.v"]
+          "C03/LIRMem.v", "C03/VSLMem.v", "C03/BytesConv.v", "C03/BytesConvTie.v", "C03/BuiltinExact.v", "C03/BuiltinTie.v"]
 # regenerated templates + the ties + the property theorems about the REAL templates
 LEGACY = ["C03/GenLegacy.v", "C03/TieLegacy.v", "C03/PropsLegacy.v"]
 VENOM = ["C03/GenVenom.v", "C03/TieVenom.v", "C03/PropsVenom.v"]
@@ -62,6 +62,7 @@ UNSL = ["C03/GenUnsafeLegacy.v", "C03/TieUnsafeLegacy.v", "C03/PropsUnsafeLegacy
 UNSV = ["C03/GenUnsafeVenom.v", "C03/TieUnsafeVenom.v", "C03/PropsUnsafeVenom.v"]
 CLAMP = ["C03/GenClamp.v", "C03/TieClamp.v", "C03/PropsClamp.v"]
 BCONV = ["C03/GenBytesConv.v", "C03/TieBytesConv.v", "C03/PropsBytesConv.v"]
+BLT = ["C03/GenBuiltins.v", "C03/TieBuiltins.v", "C03/PropsBuiltins.v"]
 
 OPSYM = {"AAdd": "+", "ASub": "-", "AMul": "*", "ADiv": "//", "AMod": "%", "AUSub": "-"}
 
@@ -409,42 +410,49 @@ def c_src_name(key):
             "bytes": lambda: f"bytes{key[1]}", "flag": lambda: f"F{key[1]}"}[key[0]]()
 
 
-def convert_differential(ctx, templates, kind, sample=None, force_idx=()):
+def convert_differential(ctx, templates, kind, sample=None, force_idx=(), tag=""):
     """exported convert templates: real back end on EVM vs Coq evaluator vs conv_spec."""
-    rnd = ctx.rng(kind + "conv")
+    rnd = ctx.rng(kind + "conv" + tag)
     force_idx = set(force_idx)
     idx = [j for j in range(len(templates)) if j in force_idx or sample is None or rnd.random() < sample]
     grids, gnames = {}, {}
     imports = CONV_PRELUDE
+    def gkey(j):
+        ki, ko = templates[j][2], templates[j][3]
+        return (ki, ko[1]) if ko[0] == "flag" and ki[0] != "flag" else ki
     for j in idx:
-        ki = templates[j][2]
-        if ki not in grids:
-            grids[ki] = c_grid(ki, rnd, 9)
-            gnames[ki] = f"CG{len(gnames)}"
-            imports += f"Definition {gnames[ki]} := {zlist(grids[ki])}.\n"
+        ki, gk = templates[j][2], gkey(j)
+        if gk not in grids:
+            grids[gk] = c_grid(ki, rnd, 9)
+            if gk != ki:    # target is a flag with n members: the boundary of its range check
+                lo, hi = (0, 1) if ki[0] == "bool" else bounds(ki[1], ki[2]) if ki[0] == "num" else (0, 2**256 - 1)
+                grids[gk] = sorted(set(grids[gk]) | {v for v in (2**gk[1] - 1, 2**gk[1], 2**gk[1] + 1) if lo <= v <= hi})
+            gnames[gk] = f"CG{len(gnames)}"
+            imports += f"Definition {gnames[gk]} := {zlist(grids[gk])}.\n"
     chain = Chain("cancun")
     rows, meta = [], []
     n_eval = 0
     for j in idx:
         ci, co, ki, ko, n = templates[j]
-        g = grids[ki]
+        g = grids[gkey(j)]
         cs = [(c_enc(ki, v), 0) for v in g]
         code = ir_snippet_code(n) if kind == "legacy" else venom_snippet_code(n)
         obs = run_code(chain, code, cs)
         n_eval += len(cs)
-        rows.append({"spec": f"cspec_row {ci} {co} {gnames[ki]}",
-                     "model": (f"clev_row {ci} {X.lir_term(n)} {gnames[ki]}" if kind == "legacy"
-                               else f"cvev_row {ci} {X.vtemplate_term(*n)} {gnames[ki]}"), "obs": obs})
+        gn = gnames[gkey(j)]
+        rows.append({"spec": f"cspec_row {ci} {co} {gn}",
+                     "model": (f"clev_row {ci} {X.lir_term(n)} {gn}" if kind == "legacy"
+                               else f"cvev_row {ci} {X.vtemplate_term(*n)} {gn}"), "obs": obs})
         meta.append((ki, ko, n, g, obs))
-    res = compare_rows(imports, rows, "c03conv" + kind, shard=150)
+    res = compare_rows(imports, rows, "c03conv" + kind + tag, shard=150)
     failing, bad_model = [], []
     for (ki, ko, n, g, obs), (sm, mm) in zip(meta, res):
         for i, e, _ in sm[:1]:
             failing.append((ki, ko, g[i] if 0 <= i < len(g) else "?", e, obs[i] if 0 <= i < len(obs) else None, n))
         for i, e, _ in mm[:1]:
             bad_model.append((ki, ko, g[i] if 0 <= i < len(g) else "?", e, obs[i] if 0 <= i < len(obs) else None))
-    ctx.corr[kind + "_convert_cases"] = n_eval
-    ctx.corr[kind + "_convert_templates_run"] = len(idx)
+    ctx.corr[kind + tag + "_convert_cases"] = n_eval
+    ctx.corr[kind + tag + "_convert_templates_run"] = len(idx)
     return n_eval, failing, bad_model
 
 
@@ -1063,6 +1071,189 @@ def empty_bytes_signed_probe(ctx):
     return hit
 
 
+# ------------------------------------------------------------------ (8) shift / abs / addmod / mulmod / pow_mod256 / ~ ; flags
+BLT_PRELUDE = COQ_PRELUDE + """From Verif Require Import C03.ConvSpec C03.BuiltinExact C03.BuiltinTie.
+Definition bspecs (f : bfn) (P : list (list Z)) : list Z := map (fun vs => oc (enc_out (b_spec_safe f vs))) P.
+Definition blevs (t : lir) (P : list (list Z)) : list Z := map (fun vs => oc (leval (lenv vs) t)) P.
+Definition bvevs (t : vtemplate) (P : list (list Z)) : list Z := map (fun vs => oc (vrun (venv vs) t)) P.
+"""
+SHIFT_AMOUNTS = [-2**255, -257, -256, -255, -9, -8, -1, 0, 1, 8, 9, 255, 256, 257, 2**255 - 1]
+
+
+def builtin_snippet_code(kind, t, arity):
+    """runtime code running the exported template on calldata words 0.. (x, y, z / %1 %2 %3) through the REAL back end"""
+    from vyper.codegen.ir_node import IRnode
+    from vyper.compiler.settings import OptimizationLevel, Settings, VenomOptimizationFlags, anchor_settings
+    from vyper.evm.assembler.core import assembly_to_evm
+    if kind == "legacy":
+        from vyper.ir import compile_ir
+        with X.settings_ctx():
+            ir = ["seq", ["mstore", 0, t], ["return", 0, 32]]
+            for i in reversed(range(arity)):
+                ir = ["with", "xyz"[i], ["calldataload", 32 * i], ir]
+            asm = compile_ir.compile_to_assembly(IRnode.from_list(ir), OptimizationLevel.NONE)
+            code, _ = assembly_to_evm(asm)
+        return code
+    from vyper.venom import generate_assembly_experimental, run_passes_on
+    from vyper.venom.parser import parse_venom
+    ins, r = t
+    body = "\n".join("  " + str(i).rstrip() for i in ins)
+    params = "".join(f"  %{i + 1} = calldataload {32 * i}\n" for i in range(arity))
+    text = f"function main {{\nmain:\n{params}{body}\n  mstore 0, {r}\n  return 0, 32\n}}\n"
+    with anchor_settings(Settings(optimize=OptimizationLevel.NONE)):
+        vctx = parse_venom(text)
+        run_passes_on(vctx, VenomOptimizationFlags(level=OptimizationLevel.NONE), disable_mem_checks=True)
+        asm = generate_assembly_experimental(vctx, OptimizationLevel.NONE)
+        code, _ = assembly_to_evm(asm)
+    return code
+
+
+def builtin_cases(key, lits, rnd):
+    """operand tuples inside the domain of the builtin (b_domb); literal positions fixed to the literal"""
+    U = [0, 1, 2, 7, 2**128, 2**255 - 1, 2**255, 2**256 - 2, 2**256 - 1, rnd.randrange(2**256)]
+    if key[0] == "shift":
+        lo, hi = bounds(*key[2])
+        xs = type_grid((32, key[1], False), rnd, 9)
+        ns = sorted({n for n in SHIFT_AMOUNTS + [lo, hi, rnd.randrange(lo, hi + 1)] if lo <= n <= min(hi, 2**255 - 1)})
+        grids = [xs, ns]
+    elif key[0] == "abs":
+        grids = [type_grid((32, True, False), rnd, 11)]
+    elif key[0] in ("addmod", "mulmod"):
+        grids = [U[2:], U[2:], [0, 1, 2, 7, 2**255, 2**256 - 1, rnd.randrange(1, 2**256)]]
+    elif key[0] == "powmod":
+        grids = [U, [0, 1, 2, 3, 255, 256, 257, 2**255 + 1, 2**256 - 1]]
+    else:
+        grids = [c_grid(key[1], rnd, 9)]
+    out = [[]]
+    for g, l in zip(grids, lits):
+        out = [o + [v] for o in out for v in ([l] if l is not None else g)]
+    return out
+
+
+def pll(cs):
+    return "[" + "; ".join("[" + "; ".join(X.zl(v) for v in c) + "]" for c in cs) + "]"
+
+
+def builtin_template_differential(ctx, fam, sample, force=None):
+    rnd = ctx.rng("builtins")
+    chain = Chain("cancun")
+    rows, meta = [], []
+    n_eval = 0
+    for kind in ("legacy", "venom"):
+        for j, (cterm, key, lits, t) in enumerate(fam[kind]):
+            if not ((force and (kind, j) in force) or sample is None or rnd.random() < sample):
+                continue
+            cs = builtin_cases(key, lits, rnd)
+            addr = chain.set_code(None, builtin_snippet_code(kind, t, len(lits)))
+            obs = [call_word(chain, addr, b"".join(word(v) for v in c)) for c in cs]
+            n_eval += len(cs)
+            pl = pll(cs)
+            rows.append({"spec": f"bspecs {cterm} {pl}",
+                         "model": (f"blevs {X.lir_term(t)} {pl}" if kind == "legacy" else f"bvevs {X.vtemplate_term(*t)} {pl}"),
+                         "obs": obs})
+            meta.append((kind, key, lits, t, cs, obs))
+    res = compare_rows(BLT_PRELUDE, rows, "c03blt", shard=60)
+    failing, bad_model = [], []
+    for (kind, key, lits, t, cs, obs), (sm, mm) in zip(meta, res):
+        for i, e, _ in sm[:1]:
+            failing.append((kind, key, lits, cs[i], e, obs[i], t))
+        for i, e, _ in mm[:1]:
+            bad_model.append((kind, key, lits, cs[i], e, obs[i]))
+    ctx.corr["builtin_template_cases"] = n_eval
+    return n_eval, failing, bad_model
+
+
+def mismatching_builtins():
+    try:
+        out = coqrun.eval_zlists("From Verif Require Import C03.BuiltinExact C03.BuiltinTie C03.TieModels C03.GenBuiltins.\n",
+                                 ["bad_idx btie_l 0 legacy_builtins", "bad_idx btie_v 0 venom_builtins"], "c03badblt", timeout=300)
+        return {("legacy", j) for j in out[0]} | {("venom", j) for j in out[1]}
+    except Exception:  # noqa
+        return None
+
+
+def mismatching_flag_converts(kind):
+    fn, tbl = ("ctie_one", "legacy_flag_converts") if kind == "legacy" else ("vctie_one", "venom_flag_converts")
+    try:
+        out = coqrun.eval_zlists("From Verif Require Import C03.TieModels C03.ConvTie C03.BuiltinExact C03.GenBuiltins.\n",
+                                 [f"bad_idx {fn} 0 {tbl}"], "c03badflag" + kind, timeout=300)
+        return out[0]
+    except Exception:  # noqa
+        return None
+
+
+SHIFT_PROBES = [("int256", "int256"), ("uint256", "int256"), ("uint256", "int8"), ("int256", "uint8"), ("uint256", "uint256"),
+                ("int256", "int128")]
+SHIFT_LIT_PROBES = [("uint256", "shift(x, 3)"), ("uint256", "shift(x, -3)"), ("int256", "shift(x, -255)"), ("int256", "shift(x, 255)"),
+                    ("uint256", "shift(x, 256)"), ("int256", "shift(x, -256)")]
+
+
+def shift_glue(ctx, cfgs):
+    """shift(x, n) through the full compiler vs shift_safe (BuiltinTie.v, = shift_spec on the domain); amounts of an
+    unsigned 256-bit type are probed below 2^255 here and at/above 2^255 by the separate defect probe"""
+    import re
+    rnd = ctx.rng("shiftglue")
+    tk = {"int256": (32, True), "uint256": (32, False), "int8": (1, True), "uint8": (1, False), "int128": (16, True)}
+    groups, n_eval, failing, defect = {}, 0, [], None
+    src = "".join(f"@external\ndef s{i}(x: {tx}, n: {tn}) -> {tx}:\n    return shift(x, n)\n\n" for i, (tx, tn) in enumerate(SHIFT_PROBES))
+    src += "".join(f"@external\ndef l{i}(x: {tx}) -> {tx}:\n    return {e}\n\n" for i, (tx, e) in enumerate(SHIFT_LIT_PROBES))
+    cases = {}
+    for i, (tx, tn) in enumerate(SHIFT_PROBES):
+        lo, hi = bounds(*tk[tn])
+        xs = type_grid((32, tk[tx][1], False), rnd, 7)
+        ns = sorted({n for n in SHIFT_AMOUNTS + [lo, hi] if lo <= n <= min(hi, 2**255 - 1)})
+        cases[f"s{i}"] = (tk[tx][1], [(x, n) for x in xs for n in ns])
+    for i, (tx, e) in enumerate(SHIFT_LIT_PROBES):
+        n = int(re.search(r", (-?\d+)\)", e).group(1))
+        cases[f"l{i}"] = (tk[tx][1], [(x, n) for x in type_grid((32, tk[tx][1], False), rnd, 9)])
+    for cfg in cfgs:
+        try:
+            out = compile_src(src, cfg, formats=("bytecode", "method_identifiers"))
+        except Exception as e:  # noqa
+            ctx.violation("correspondence-broken", f"shift() probe does not compile under {cfg.name}",
+                          {"source": src, "config": cfg.name, "error": f"{type(e).__name__}: {e}"[:600]})
+            continue
+        chain = Chain(cfg.evm)
+        addr = chain.deploy(bytes.fromhex(out["bytecode"][2:]))
+        sels = {sig.split("(")[0]: int(h, 16).to_bytes(4, "big") for sig, h in out["method_identifiers"].items()}
+        for fn, (sx, cs) in cases.items():
+            datas = [sels[fn] + word(x) + (word(n) if fn[0] == "s" else b"") for x, n in cs]
+            obs = [call_word(chain, addr, dt) for dt in datas]
+            n_eval += len(cs)
+            g = groups.setdefault(fn, {"spec": f"map (fun p => wrap (shift_safe {'true' if sx else 'false'} (fst p) (snd p))) {plist(cs)}",
+                                       "cs": cs, "runs": []})
+            g["runs"].append((cfg, obs, datas))
+        # the defect: amount of type uint256 with the top bit set
+        if defect is None:
+            for x, n in ((12, 2**256 - 1), (2**256 - 1, 2**256 - 2), (1, 2**255)):
+                dt = sels["s4"] + word(x) + word(n)
+                got = call_word(chain, addr, dt)
+                n_eval += 1
+                if got != 0:
+                    defect = {"source": src, "config": cfg.name, "calldata": dt.hex(), "function": "s4 = shift(x: uint256, n: uint256)",
+                              "args": [str(x), str(n)], "expected": "0x0", "observed": "revert" if got == -1 else hex(got),
+                              "cause": "Shift.build_IR / lower_shift test the sign of the amount with slt whatever its type; an unsigned "
+                                       "amount >= 2**255 is shifted RIGHT by 2**256-n (theorem shift_amount_defect)"}
+                    break
+    keys = list(groups)
+    rows = [{"spec": groups[k]["spec"], "multi": [r[1] for r in groups[k]["runs"]]} for k in keys]
+    res = compare_rows(BLT_PRELUDE, rows, "c03shiftglue", shard=60)
+    for fn, (sm, _) in zip(keys, res):
+        seen = set()
+        for i, e, m in sm:
+            if m in seen:
+                continue
+            seen.add(m)
+            cfg, obs, datas = groups[fn]["runs"][m]
+            cs = groups[fn]["cs"]
+            what = SHIFT_PROBES[int(fn[1:])] if fn[0] == "s" else SHIFT_LIT_PROBES[int(fn[1:])]
+            failing.append({"function": f"{fn}: {what}", "config": cfg.name, "args": [str(cs[i][0]), str(cs[i][1])],
+                            "expected": "revert" if e == -1 else hex(e), "observed": "revert" if obs[i] == -1 else hex(obs[i]),
+                            "calldata": datas[i].hex(), "source": src})
+    ctx.corr["shift_glue_cases"] = n_eval
+    return n_eval, failing, defect
+
+
 # ------------------------------------------------------------------ main
 
 class PhaseCtx:
@@ -1229,6 +1420,13 @@ def generate_and_build(ctx):
         bfam = {"legacy": bl_, "venom": bv_}
     except Exception as e:  # noqa
         gen_err = (gen_err or "") + f" bytes-convert export: {type(e).__name__}: {e}"
+    bltfam = None
+    try:
+        text, l_, v_, fl_, fv_ = X.gen_builtins()
+        (COQ / "C03" / "GenBuiltins.v").write_text(text)
+        bltfam = {"legacy": l_, "venom": v_, "flag_legacy": fl_, "flag_venom": fv_}
+    except Exception as e:  # noqa
+        gen_err = (gen_err or "") + f" builtins export: {type(e).__name__}: {e}"
     if any(X.CRASHES.get(k) for k in ("legacy", "venom")):
         ctx.extra["convert_generator_crashes"] = {k: v[:10] for k, v in X.CRASHES.items() if v}
     ctx.extra["family_size"] = {"legacy_templates": len(ltempl), "venom_templates": len(vtempl), "numeric_types": 65,
@@ -1248,7 +1446,8 @@ def generate_and_build(ctx):
            "unsl": {"ok": False, "file": "C03/GenUnsafeLegacy.v", "failed_lemma": None, "out": gen_err or ""},
            "unsv": {"ok": False, "file": "C03/GenUnsafeVenom.v", "failed_lemma": None, "out": gen_err or ""},
            "clamp": {"ok": False, "file": "C03/GenClamp.v", "failed_lemma": None, "out": gen_err or ""},
-           "bconv": {"ok": False, "file": "C03/GenBytesConv.v", "failed_lemma": None, "out": gen_err or ""}}
+           "bconv": {"ok": False, "file": "C03/GenBytesConv.v", "failed_lemma": None, "out": gen_err or ""},
+           "blt": {"ok": False, "file": "C03/GenBuiltins.v", "failed_lemma": None, "out": gen_err or ""}}
     if b0["ok"]:
         ths = []
         if ltempl:
@@ -1271,22 +1470,24 @@ def generate_and_build(ctx):
             ths.append(threading.Thread(target=build_chain, args=(ctx, CLAMP, STATIC, res, "clamp")))
         if bfam:
             ths.append(threading.Thread(target=build_chain, args=(ctx, BCONV, STATIC, res, "bconv")))
+        if bltfam:
+            ths.append(threading.Thread(target=build_chain, args=(ctx, BLT, STATIC, res, "blt")))
         for t in ths:
             t.start()
         for t in ths:
             t.join()
     bl, bv, bcl, bcv, bpl, bpv = res["legacy"], res["venom"], res["convl"], res["convv"], res["powl"], res["powv"]
-    bul, buv, bclamp, bbconv = res["unsl"], res["unsv"], res["clamp"], res["bconv"]
+    bul, buv, bclamp, bbconv, bblt = res["unsl"], res["unsv"], res["clamp"], res["bconv"], res["blt"]
     ctx.log(f"coq done {time.time()-t0:.0f}s static={b0['ok']} legacy={bl['ok']} venom={bv['ok']} "
             f"convert-legacy={bcl['ok']} convert-venom={bcv['ok']} pow-legacy={bpl['ok']} pow-venom={bpv['ok']} "
-            f"unchecked-legacy={bul['ok']} unchecked-venom={buv['ok']} clamps={bclamp['ok']} bytes-convert={bbconv['ok']}")
-    if all(b["ok"] for b in (bl, bv, bcl, bcv, bpl, bpv, bul, buv, bclamp, bbconv)):
+            f"unchecked-legacy={bul['ok']} unchecked-venom={buv['ok']} clamps={bclamp['ok']} bytes-convert={bbconv['ok']} builtins={bblt['ok']}")
+    if all(b["ok"] for b in (bl, bv, bcl, bcv, bpl, bpv, bul, buv, bclamp, bbconv, bblt)):
         ctx.extra["syntactic_matches"] = (len(ltempl) + len(vtempl) + 130 + len(lconv) + len(vconv) + len(lpow) + len(vpow)
                                           + len(luns) + len(vuns))
 
     return dict(gen_err=gen_err, ltempl=ltempl, vtempl=vtempl, lconv=lconv, vconv=vconv, vextra=vextra, lpow=lpow, vpow=vpow,
                 luns=luns, vuns=vuns, clampfam=clampfam, b0=b0, bl=bl, bv=bv, bcl=bcl, bcv=bcv, bpl=bpl, bpv=bpv,
-                bul=bul, buv=buv, bclamp=bclamp, bfam=bfam, bbconv=bbconv)
+                bul=bul, buv=buv, bclamp=bclamp, bfam=bfam, bbconv=bbconv, bltfam=bltfam, bblt=bblt)
 
 
 def prebuild(ctx):
@@ -1335,6 +1536,7 @@ def run(ctx):
     luns, vuns, bul, buv = g["luns"], g["vuns"], g["bul"], g["buv"]
     clampfam, bclamp = g["clampfam"], g["bclamp"]
     bfam, bbconv = g["bfam"], g["bbconv"]
+    bltfam, bblt = g["bltfam"], g["bblt"]
 
     # ---- correspondence / search
     # ---- correspondence / search
@@ -1628,11 +1830,74 @@ def run(ctx):
 
         return found, total
 
+    def ph_builtins(ctx):
+        found, total = False, 0
+        # ---- shift / abs / addmod / mulmod / pow_mod256 / ~ templates, flag conversions for every member count
+        if bltfam and b0["ok"]:
+            if bblt["ok"]:
+                frac, force = (0.03 if ctx.tier == "quick" else 0.5), None
+            else:
+                force = mismatching_builtins()
+                ctx.log(f"search builtins: {None if force is None else len(force)} templates differ from the model")
+                frac = 0.3 if force is None else 0.03
+            n, failing, bad_model = builtin_template_differential(ctx, bltfam, frac, force)
+            total += n
+            for kind, key, lits, c, e, g_, node in failing[:5]:
+                found = True
+                tstr = str(node) if kind == "legacy" else "; ".join(str(i).strip() for i in node[0]) + f" -> {node[1]}"
+                ctx.violation(
+                    "failing-input", f"{kind} template of builtin {key} (operands {lits}) is not exact-or-revert",
+                    {"generator": f"{kind} front end, builtin {key}; operands: None = variable, else the literal",
+                     "template": " ".join(tstr.split()), "operands": [str(v) for v in c],
+                     "expected": "revert" if e == -1 else hex(e), "observed_on_evm": "revert" if g_ == -1 else hex(g_),
+                     "how": "template compiled by the real back end + assembler, executed on pyrevm"},
+                    key=f"{kind}-builtin:{key[0]}:{key[1:]}:{lits}")
+            for kind, key, lits, c, l, g_ in bad_model[:5]:
+                if not found:
+                    ctx.violation("correspondence-broken", f"Coq evaluator disagrees with the real back end + EVM on an exported {kind} builtin template",
+                                  {"builtin": str(key), "operands": [str(v) for v in c], "coq": str(l), "evm": str(g_)})
+            for kind in ("legacy", "venom"):
+                templ = bltfam["flag_" + kind]
+                if bblt["ok"]:
+                    frac, force = (0.02 if ctx.tier == "quick" else 0.3), ()
+                else:
+                    bad = mismatching_flag_converts(kind)
+                    ctx.log(f"search flag converts {kind}: {None if bad is None else len(bad)} templates differ from the model")
+                    frac, force = (0.2, ()) if bad is None else (0.02, bad[::max(1, len(bad) // 100)])
+                n, failing, bad_model = convert_differential(ctx, templ, kind, frac, force, tag="flag")
+                total += n
+                for ki, ko, v, e, g_, node in failing[:5]:
+                    found = True
+                    tstr = str(node) if kind == "legacy" else "; ".join(str(i).strip() for i in node[0]) + f" -> {node[1]}"
+                    ctx.violation(
+                        "failing-input", f"{kind} convert template {c_src_name(ki)} -> {c_src_name(ko)} is not exact-or-revert",
+                        {"generator": f"{kind} convert on a symbolic operand of type {c_src_name(ki)}, target {c_src_name(ko)}",
+                         "template": " ".join(tstr.split()), "value": str(v), "expected": "revert" if e == -1 else hex(e),
+                         "observed_on_evm": "revert" if g_ == -1 else (hex(g_) if g_ is not None else "?")},
+                        key=f"{kind}-convert:{c_src_name(ki)}->{c_src_name(ko)}")
+                for ki, ko, v, l, g_ in bad_model[:5]:
+                    if not found:
+                        ctx.violation("correspondence-broken", f"Coq evaluator disagrees with the real back end + EVM on an exported {kind} flag convert template",
+                                      {"convert": f"{c_src_name(ki)} -> {c_src_name(ko)}", "value": str(v), "coq": str(l), "evm": str(g_)})
+        n, sfail, defect = shift_glue(ctx, quick_glue_configs() if ctx.tier == "quick" else configs("quick"))
+        total += n
+        for f in sfail[:8]:
+            found = True
+            ctx.violation("failing-input", f"shift probe {f['function']} under {f['config']} is not exact", f,
+                          key=f"shift-glue:{f['function']}:{f['config']}")
+        if defect:
+            if not ctx.is_known("shift-builtin-unsigned-amount-negative"):
+                found = True
+            ctx.violation("failing-input", "shift(x, n) with n: uint256 >= 2**255 shifts right instead of returning 0", defect,
+                          key="shift-builtin-unsigned-amount-negative")
+        ctx.log(f"builtin differentials done {time.time()-t0:.0f}s")
+        return found, total
+
     # independent phases, run in forked children (longest first); their violations and counters are replayed in the
     # order below, so the report does not depend on scheduling
     phases = [("templates", ph_templates), ("pow", ph_pow), ("unchecked", ph_unchecked), ("clamps", ph_clamps),
-              ("bytesconv", ph_bytesconv), ("convert", ph_convert), ("glue", ph_glue)]
-    rets = run_phases(ctx, phases, order=("glue", "bytesconv", "convert", "unchecked", "pow", "templates", "clamps"))
+              ("bytesconv", ph_bytesconv), ("builtins", ph_builtins), ("convert", ph_convert), ("glue", ph_glue)]
+    rets = run_phases(ctx, phases, order=("glue", "bytesconv", "convert", "unchecked", "builtins", "pow", "templates", "clamps"))
     found = any(r[0] for r in rets)
     total = sum(r[1] for r in rets)
     ctx.log(f"differentials done {time.time()-t0:.0f}s")
@@ -1641,7 +1906,7 @@ def run(ctx):
     if gen_err and not found:
         ctx.violation("translator-rejected", "template export failed: " + gen_err, {"error": gen_err})
     for b, what in ((b0, "static"), (bl, "legacy"), (bv, "venom"), (bcl, "convert-legacy"), (bcv, "convert-venom"),
-                    (bpl, "pow-legacy"), (bpv, "pow-venom"), (bul, "unchecked-legacy"), (buv, "unchecked-venom"), (bclamp, "clamps"), (bbconv, "bytes-convert")):
+                    (bpl, "pow-legacy"), (bpv, "pow-venom"), (bul, "unchecked-legacy"), (buv, "unchecked-venom"), (bclamp, "clamps"), (bbconv, "bytes-convert"), (bblt, "builtins")):
         if not b["ok"] and not found and not (gen_err and what != "static"):
             ctx.violation("theorem-broken", f"{b.get('failed_lemma')} in {b.get('file')} ({what})",
                           {"theorem": b.get("failed_lemma"), "file": b.get("file"), "coq_output": (b.get("out") or "")[-1500:]})
